@@ -110,7 +110,52 @@ def _none_guarded(idx, sid, attr):
     return False
 
 
+GENERATOR_MAKERS = {"iter", "map", "filter", "zip", "enumerate", "reversed"}
+
+
+def _one_shot_fields(idx, ef, cls):
+    """self.<f> assigned in __init__ from a generator (call of a function that yields, genexp, iter/map/filter/zip)."""
+    out = {}
+    init = cls.method("__init__")
+    if init is None:
+        return out
+    types = ef.guard_types(init)
+    for n in ast.walk(init.node):
+        if isinstance(n, ast.Assign) and len(n.targets) == 1 and isinstance(n.targets[0], ast.Attribute) and \
+                isinstance(n.targets[0].value, ast.Name) and n.targets[0].value.id == "self":
+            v = n.value
+            gen = isinstance(v, ast.GeneratorExp)
+            if isinstance(v, ast.Call):
+                if isinstance(v.func, ast.Name) and v.func.id in GENERATOR_MAKERS:
+                    gen = True
+                else:
+                    k = ef.resolve_call(v, init, types)
+                    callee = k[1] if k[0] == 'func' else None
+                    if callee is None and isinstance(v.func, ast.Attribute):
+                        # unresolved receiver: any method of that name in the package that is a generator
+                        cands = [g for g in idx.all_functions() if g.name == v.func.attr]
+                        if cands and all(any(isinstance(x, (ast.Yield, ast.YieldFrom)) for x in ast.walk(g.node)) for g in cands):
+                            gen = True
+                    elif callee is not None and any(isinstance(x, (ast.Yield, ast.YieldFrom)) for x in ast.walk(callee.node)):
+                        gen = True
+            if gen:
+                out[n.targets[0].attr] = ast.unparse(v)[:60]
+    return out
+
+
 def carried_state(rep, idx, ef, els):
+    for f in els:
+        # one-shot iterators created at construction and consumed by elaboration
+        shots = _one_shot_fields(idx, ef, f.cls)
+        for n in ast.walk(f.node):
+            its = [n.iter] if isinstance(n, (ast.For, ast.comprehension)) else []
+            if isinstance(n, ast.Call) and isinstance(n.func, ast.Name) and n.func.id in ("list", "tuple", "sorted", "set", "dict") and n.args:
+                its.append(n.args[0])
+            for it in its:
+                if isinstance(it, ast.Attribute) and isinstance(it.value, ast.Name) and it.value.id == "self" and it.attr in shots:
+                    rep.bad("C19.1", f.site, f"self.{it.attr}: one-shot iterator consumed by elaborate()",
+                            f"__init__ stores a generator ({shots[it.attr]}) and elaborate() iterates it: the first elaboration exhausts it, "
+                            "every later elaboration silently generates no logic for these items")
     for f in els:
         s = ef.summary(f)
         rep.analysed(f.site)
